@@ -83,6 +83,10 @@ func worker(args []string) int {
 		fmt.Fprintln(os.Stderr, "unknown property", id)
 		return 2
 	}
+	if spec.Race {
+		// a storm of 32 goroutines under the race detector legitimately burns CPU
+		core.CPUHangLimit = 900
+	}
 	w := core.NewWorker(id, tier, seed, batch, cur)
 	if len(args) >= 8 {
 		w.Replay, _ = strconv.Atoi(args[7])
@@ -434,6 +438,10 @@ func runBatch(bin, id, tier string, seed int64, b, n int, runDir, repDir string,
 	cmd.Stderr = &stderr
 	cmd.Stdout = &stderr
 	cmd.Env = append(os.Environ(), "GOTRACEBACK=all", "GOMAXPROCS="+workerProcs(id))
+	if spec := mon.Registry[id]; spec != nil && spec.Race {
+		// every report is collected (the worker reads its own log after each storm)
+		cmd.Env = append(cmd.Env, "GORACE=halt_on_error=0 exitcode=0 log_path="+filepath.Join(runDir, fmt.Sprintf("race-b%d", b)))
+	}
 	err := cmd.Run()
 	o := batchOutcome{}
 	if ctx.Err() == context.DeadlineExceeded {
